@@ -172,6 +172,51 @@ def run(ctx):
             ctx.fail(key + ":quadratic", desc, "logpdf(x)-logpdf(mean) = -prec/2 |D(x-mean)|^2", quad,
                      "GMRF does not evaluate the shifted variable through the operator")
 
+    # histories on ONE object: reads after re-assigning prec / mean must be those of the current parameters
+    nseq = 40 if not thorough else 400
+    for _ in range(nseq):
+        pd = 1 if rng.rand() < 0.7 else 2
+        order = int(rng.randint(0, 3)); bc = ["zero", "periodic", "neumann"][rng.randint(0, 3)]
+        n = int(rng.randint(3, 9)) if pd == 1 else int(rng.randint(3, 5))
+        if (pd, order, bc, n) not in Pmodel or Pmodel[(pd, order, bc, n)] == "err":
+            continue
+        dim = n if pd == 1 else n * n
+        P = np.array([[float(v) for v in r] for r in pm(Pmodel[(pd, order, bc, n)])])
+        mean = rng.randint(-3, 4, size=dim).astype(float); prec = float(rng.choice([0.5, 1.0, 2.0, 4.0]))
+        try:
+            with quiet():
+                G = GMRF(mean, prec, bc_type=bc, order=order, **({} if pd == 1 else {"geometry": Image2D((n, n))}))
+        except Exception:
+            continue
+        ops = []
+        key = f"GMRF:{pd}D:order{order}:{bc}:history"
+        for step in range(int(rng.randint(3, 9))):
+            op = ["read_sqrtprec", "set_prec", "set_mean", "read_logpdf_diff", "read_sqrtprecTimesMean"][rng.randint(0, 5)]
+            ops.append(op)
+            desc = {"gmrf": f"{pd}D", "order": order, "bc": bc, "n": n, "ops": list(ops)}
+            with quiet():
+                if op == "set_prec":
+                    prec = float(rng.choice([0.25, 0.5, 1.0, 2.0, 4.0, 8.0])); G.prec = prec
+                elif op == "set_mean":
+                    mean = rng.randint(-3, 4, size=dim).astype(float); G.mean = mean
+                elif op == "read_sqrtprec":
+                    S = dense(G.sqrtprec)
+                    if not mclose(S.T @ S, prec * P, 1e-6):
+                        ctx.disagree(key, desc, "R^T R = prec*P (current prec)", "differs")
+                        ctx.fail(key, desc, "sqrtprec^T sqrtprec = current prec * D^T D", "differs", "square-root precision is not that of the current precision after re-assignment")
+                elif op == "read_sqrtprecTimesMean":
+                    S = dense(G.sqrtprec); v = np.asarray(G.sqrtprecTimesMean).ravel()
+                    if not vclose(S.T @ v, prec * (P @ mean), 1e-6):
+                        ctx.disagree(key, desc, "R^T (R mean) = prec*P*mean", "differs")
+                        ctx.fail(key, desc, "sqrtprecTimesMean = sqrtprec @ current mean", "differs", "sqrtprecTimesMean is stale")
+                else:
+                    x = rng.randint(-4, 5, size=dim).astype(float)
+                    a, b0 = float(G.logpdf(x)), float(G.logpdf(mean))
+                    if math.isfinite(a) and math.isfinite(b0) and not close(a - b0, -0.5 * prec * float((x - mean) @ (P @ (x - mean))), 1e-8):
+                        ctx.disagree(key, desc, "quadratic form with current prec/mean", a - b0)
+                        ctx.fail(key, desc, "logpdf(x)-logpdf(mean) = -prec/2 |D(x-mean)|^2 for the current parameters", a - b0, "logpdf uses stale parameters")
+        ctx.case("gmrf-history", {"gmrf": f"{pd}D", "order": order, "bc": bc, "n": n, "ops": ops})
+
     # LMRF / CMRF: D(x - location) with the first-order operator
     dlines, dmeta = [], []
     for bc in ["zero", "periodic", "neumann"]:
